@@ -60,6 +60,7 @@ def stepP (maxCount maxBytes : Nat) (p : PS) : Tk → Option PS
   | .x => some { p with stopped := true }
   | .w ok => if ok then some p else none
   | .panic _ => none
+  | .clk => some p
 
 def holdsFrom (maxCount maxBytes : Nat) : PS → List Tk → Bool
   | _, [] => true
@@ -84,5 +85,17 @@ def staleTicksFrom (maxTicks : Nat) : List Nat → List Tk → Bool
   | pend, _ :: ts => staleTicksFrom maxTicks pend ts
 
 def staleTicksOk (maxTicks : Nat) (ts : List Tk) : Bool := staleTicksFrom maxTicks [] ts
+
+/-- The heartbeat period read off the trace against the harness's reference clock (`k` = 100 ms of a
+    sleeper in the same process): while the batcher runs, at most `maxK` clock ticks may pass without a
+    heartbeat iteration (`h`). `since` = clock ticks since the last `h` (or since the start). -/
+def hbPeriodFrom (maxK : Nat) : Nat → List Tk → Bool
+  | _, [] => true
+  | _, .h :: ts => hbPeriodFrom maxK 0 ts
+  | since, .clk :: ts => if since + 1 > maxK then false else hbPeriodFrom maxK (since + 1) ts
+  | _, .x :: _ => true
+  | since, _ :: ts => hbPeriodFrom maxK since ts
+
+def hbPeriodOk (maxK : Nat) (ts : List Tk) : Bool := hbPeriodFrom maxK 0 ts
 
 end FileD.SpecC08
